@@ -3,7 +3,7 @@ import os
 
 import numpy as np
 
-from .. import env, core, gen, files, synth, spec, symcodec, view, histcorr
+from .. import derivedcorr, env, core, gen, files, synth, spec, symcodec, view, histcorr
 from seismic_zfp.cropping import SgzCropper  # noqa: E402
 from seismic_zfp.utils import WrongDimensionalityError  # noqa: E402
 
@@ -138,6 +138,14 @@ def run(ctx):
                             z0 = int(round((ho.axes()[2][0] - fi.z[0]) / (fi.z[1] - fi.z[0]))) if len(fi.z) > 1 else 0
                             real = (f"ok {i0} {i0 + lo.n[0]} {x0} {x0 + lo.n[1]} {z0} {z0 + lo.n[2]} | {len(idv)} "
                                     f"{histcorr.digest(idv)}")
+                            # K: Model/Derived.cropHeader: the 19 fixed header words of the cropped file
+                            wb = (i0, i0 + lo.n[0], x0, x0 + lo.n[1], z0, z0 + lo.n[2])
+                            if fi.mask is not None:
+                                mk = np.asarray(fi.mask).reshape(fi.n[0], fi.n[1])
+                                structured_, pop_ = False, int(np.count_nonzero(mk[wb[0]:wb[1], wb[2]:wb[3]]))
+                            else:
+                                structured_, pop_ = True, lo.n[0] * lo.n[1]
+                            derivedcorr.check_crop(ctx, model, fi.path, out, wb, structured_, pop_, d)
                         except Exception as e:  # noqa
                             real = f'unreadable output: {type(e).__name__}: {e}'
                     else:
